@@ -413,13 +413,19 @@ class PaneOptions:
 
 
 def _ordered_type_key(ty: t.Any) -> t.Any:
-    """Hashable key of a type expression which, unlike `==` on `typing` objects, distinguishes the order of union members."""
+    """
+    Hashable key of a type expression which, unlike `==` on `typing` objects,
+    distinguishes the order of union members and of literal values.
+    """
     if isinstance(ty, (list, tuple)):
         # a parameter list, as in `Callable[[int], str]`
         return tuple(map(_ordered_type_key, ty))
     args = t.get_args(ty)
-    if not args or t.get_origin(ty) is t.Literal:
+    if not args:
         return ty
+    if t.get_origin(ty) is t.Literal:
+        # `Literal[1, 2] == Literal[2, 1]`; the values themselves are not type expressions
+        return (t.Literal, tuple((type(v), v) for v in args))
     return (t.get_origin(ty), tuple(map(_ordered_type_key, args)))
 
 
